@@ -22,7 +22,15 @@ class DecideStream(Stream):
         pd = dict(pa, uid=2, effect='ALLOW')
         inq = {'resource': 'r', 'action': 'get', 'subject': 'Max', 'context': None}
         t = [['.*', ['star', ['dot']]]]
-        return [{'checker': 'CRegex', 'policies': [pa], 'inquiry': inq, 'rxtable': t},
+        # a restricted context key that is present with the value None / 0 (present is not the same as truthy)
+        pc = dict(pa, uid=3, context=[['k', ['Falsy']]])
+        pdn = dict(pa, uid=4, effect='deny', context=[['k', ['Eq', None]]])
+        inq_none = dict(inq, context=specs.jv({'k': None}))
+        inq_zero = dict(inq, context=specs.jv({'k': 0}))
+        extra = [{'checker': 'CRegex', 'policies': [pc], 'inquiry': inq_none, 'rxtable': t},
+                 {'checker': 'CRegex', 'policies': [pc], 'inquiry': inq_zero, 'rxtable': t},
+                 {'checker': 'CRegex', 'policies': [pa, pdn], 'inquiry': inq_none, 'rxtable': t}]
+        return extra + [{'checker': 'CRegex', 'policies': [pa], 'inquiry': inq, 'rxtable': t},
                 {'checker': 'CRegex', 'policies': [pa, pd], 'inquiry': inq, 'rxtable': t},
                 {'checker': 'CRegex', 'policies': [], 'inquiry': inq, 'rxtable': t}]
 
@@ -106,7 +114,8 @@ ASSUME = ['effects / values with user-defined __eq__ are outside the universe']
 
 
 def main(argv):
-    return run_check('C01', [DecideStream()], argv, trusted_base=TRUSTED, assumptions=ASSUME)
+    return run_check('C01', [DecideStream()], argv, trusted_base=TRUSTED, assumptions=ASSUME,
+                     translated=('guard',))
 
 
 if __name__ == '__main__':
